@@ -32,6 +32,7 @@ M_STR_VARARGS = "check_input-str-getter-positional-call-nests-varargs"
 M_METHOD_MISBIND = "check_input-method-call-missing-one-arg-binds-self-as-data"
 M_CT_ONE_STAR = "check_types-single-star-arg-treated-as-named-argument"
 M_CT_KW_NAME = "check_types-keyword-named-like-varkw-parameter"
+M_CT_UNION_LAZY = "check_types-union-lazy-failure-of-first-member-not-caught"
 
 
 def new_run():
@@ -60,8 +61,13 @@ def gen_scenario(rng):
     backend = "polars" if rng.random() < 0.15 else "pandas"
     options = P.gen_options(rng)
     if backend == "polars":
+        # polars: head/tail/sample go through PolarsSchemaBackend.subsample,
+        # whose .unique() returns rows in a run-dependent order (C20's
+        # subject); only lazy is varied here so that observations stay
+        # reproducible
         options["inplace"] = False
         options["sample"] = options["random_state"] = None
+        options["head"] = options["tail"] = None
     scn = {"deco": deco, "backend": backend, "options": options,
            "tables": {}, "specs": {}, "models": {}}
     tnames = list(P.TEMPLATES)
@@ -511,7 +517,7 @@ def _ct_in_specs(scn, world, obs):
                     errs.append(P.exc_norm(e))  # the decorator calling it
             if not parsed:
                 if len(keys) > 1:
-                    raise P.Reject(["<any-schema-error>"])
+                    raise P.Reject(["<any-schema-error>"] + errs)
                 raise P.Reject(errs)
             if len(parsed) > 1 and any(S.snap(p) != S.snap(parsed[0]) for p in parsed[1:]):
                 obs["ambiguous_union"] = True
@@ -571,6 +577,12 @@ def classify(scn, var, act, ref, kind):
         want = ref["rec"]["calls"][0].get("rest") if ref["rec"]["calls"] else None
         if want is not None and got == ("tuple", [want]):
             return M_STR_VARARGS
+    if f["deco"] == "check_types" and scn.get("df_annotation") == "union" \
+            and scn["options"]["lazy"] and ref["called"] \
+            and out and out[0] == "raise" and out[1][0] == "SchemaErrors":
+        # _check_arg catches errors.SchemaError only; with lazy=True the
+        # first member's SchemaErrors escapes before the next member is tried
+        return M_CT_UNION_LAZY
     if f["deco"] == "check_types":
         nrest = len(scn["values"].get("rest", []))
         if f["has_varpos"] and nrest == 1 and len(var["args"]) >= 1 and \
